@@ -4,6 +4,9 @@ import VProofs.Lemmas.ScorePredict
 import VProofs.Lemmas.ScoreOverwrite
 import VProofs.Lemmas.ScoreLocal
 import VProofs.Lemmas.ScoreWindow0
+import VProofs.Lemmas.ScoreBoundMain
+import VProofs.Lemmas.ScoreOverwrite0
+import VProofs.Lemmas.ScoreLocal0
 /-!
 # C01 — Boundary scores and decisions equal the pointwise linear model
 
@@ -330,7 +333,271 @@ example : specBounds (dropW0 C01_exModel0) C01_exSentence.text = [B.N, B.W] := b
 example : (C01_exPredict0 {} false 7 C01_exSentence).bind (·.boundaryScores) = .ok [0, 1] := by decide
 example : (C01_exPredict0 { fixed := false, cache := false, tagPred := false } false 7 C01_exSentence).bind
     (·.boundaryScores) = .ok [0, 1] := by decide
+
+/-! ## no `i32` overflow under a bound on the weights of the model
+
+In the model the `i32` scores and weights of the Rust code are unbounded integers.  The theorems of this section show that
+every value which `Predictor::new` and `Predictor::predict` hold in an `i32` variable for boundary scores (tag scores are not
+covered) is at most the **mass** of the model in absolute value — `WModel.mass`: `|bias|` plus `absSum` (the sum of the absolute
+values) of the weights of all character n-grams, type n-grams and dictionary words, taken on `dropW0 m`, i.e. without the
+n-grams of a kind whose window is 0.  So for a model whose mass is below `2^31` the unbounded model and `i32` arithmetic
+coincide on every `+` performed (`C01_no_overflow`), and the bound `2^31 − 1` on the mass cannot be improved (examples below).
+
+Definitions used (in `VProofs/Lemmas/ScoreBound*.lean`): `absSum`, `ngramMass`, `dictMass`, `WModel.mass`, `I32`;
+`charEntries` / `charEntriesT` / `typeEntries` / `typeEntriesT` (the entries the constructors feed to the weight merger),
+`BuiltFrom`, `cacheTerms`, `cacheAdds`, `pmaStates0`; `PmaScorer.weightsIn`, `MergerIn`, `BuildWithin`, `RunWithin`
+(the collections of values, parametrised by a test `P : Int → Bool`); `Merge.addC`, `Merge.liftE`, `C01B.okW` (the checked `+=`). -/
+
+/-- the test "at most `M` in absolute value" -/
+def within (M : Nat) (x : Int) : Bool := decide (x.natAbs ≤ M)
+
+/-- the test "in the range of `i32`" -/
+def inI32 (x : Int) : Bool := decide (I32 x)
+
+theorem within_iff (M : Nat) (x : Int) : within M x = true ↔ x.natAbs ≤ M := by simp [within]
+theorem inI32_iff (x : Int) : inI32 x = true ↔ I32 x := by simp [inI32]
+
+theorem dropW0_isDrop (m : WModel) : C01B.IsDropW0 m (dropW0 m) := ⟨rfl, rfl, rfl, rfl, rfl, rfl⟩
+
+/-- the mass of `dropW0 m` spelled out -/
+theorem C01_mass_window0 (m : WModel) :
+    (dropW0 m).mass = m.bias.natAbs + ngramMass (if m.charW = 0 then [] else m.charNgrams)
+      + ngramMass (if m.typeW = 0 then [] else m.typeNgrams) + dictMass m.dict := rfl
+
+/-- **1. the specification**: for EVERY model (no well-formedness needed), every text and every boundary the score of the
+pointwise linear model is at most the mass of the model in absolute value.  Reason: the occurrences of one entry end at
+different positions, hence read its weight vector at different indices, so for one boundary each weight is counted at most once.
+Rust: the final value of `sentence.boundary_scores[score_padding + b]` (by `C01_scores` / `C01_scores_window0`). -/
+theorem C01_spec_bounded (m : WModel) (text : List Char) (b : Nat) : (specScore m text b).natAbs ≤ m.mass :=
+  C01B.specScore_natAbs_le m text b
+
+/-- … in particular for the model the predictor realises when windows may be 0 (`C01_scores_window0`) -/
+theorem C01_spec_bounded_window0 (m : WModel) (text : List Char) (b : Nat) :
+    (specScore (dropW0 m) text b).natAbs ≤ (dropW0 m).mass :=
+  C01_spec_bounded (dropW0 m) text b
+
+/-- **2. construction**: for every model from which `Predictor.new` succeeds (no well-formedness needed), with
+`M = (dropW0 m).mass`, see `BuildWithin`:
+* every coordinate of every merged weight stored in the character scorer and in the pattern-matching type scorer (field
+  `weights` of `CharScorerBoundary[Tag]` / `TypeScorerBoundary[Tag]`, zero padding of the fixed layout included) is within `M`;
+* each of these scorers is built from the entry list `charEntries (dropW0 m)` etc., and running both phases of the weight merger
+  on that list — `CharWeightMerger::add` (`*prev_weight += &weight`) for every entry, then `merge()`
+  (`data_to_ref.0 += &data_from.borrow().0`) — with a `PositionalWeight::add_assign` that checks every coordinate `*y += *x` of
+  its result against `M` and poisons the weight for good when the check fails, returns exactly the unchecked weights, none of them
+  poisoned: no `+` performed during construction leaves the bound (operands are coordinates of earlier results, of model entries,
+  or the zeros of `resize`);
+* for the cached type scorer (`TypeScorerBoundaryCache::new`): every table entry `scores[seqid]` and every partial sum `y` of
+  the loop `y += *w` that computes it is within `M`. -/
+theorem C01_merged_bounded (cfg : Cfg) (m : WModel) (pt : Bool) (p : Predictor)
+    (hp : Predictor.new cfg m pt = .ok p) : BuildWithin (within (dropW0 m).mass) cfg (dropW0 m) p :=
+  C01B.build_within cfg m (dropW0 m) (dropW0_isDrop m) pt p hp _ (fun x hx => (within_iff _ x).mpr hx)
+
+/-- **3. prediction, every intermediate buffer**: for every `WFModel0`, every predictor built from it and every sentence over a
+non-empty text, with `M = (dropW0 m).mass`, see `RunWithin`: every slot of `sentence.boundary_scores` (the padding on both sides
+included) is within `M`
+* after the fill with the bias;
+* after ANY prefix of the automaton matches of the character pass has been processed (`pmaAddScores.go` on `matches.take k`
+  does not fail and leaves a buffer within `M`) — i.e. after every call of `add_score`; within one call every slot holds either its
+  old or its new value, so every `*y += *x` of the loop is covered;
+* in the buffer `buf1` the complete character pass leaves (`k ≥` number of matches);
+* from `buf1`, after any prefix of the matches of the pattern-matching type pass, and for the cached type scorer after any number
+  `k` of boundaries (`*y += self.get_score(seqid)`);
+* in the buffer that `predict` finally stores in the sentence. -/
+theorem C01_running_bounded (cfg : Cfg) (m : WModel) (hm : WFModel0 m) (pt : Bool) (p : Predictor)
+    (hp : Predictor.new cfg m pt = .ok p) (s : Sentence) (hs : SentOK s) :
+    RunWithin (within (dropW0 m).mass) p s :=
+  C01B.run_within cfg m (dropW0 m) (dropW0_isDrop m) hm.char_shape hm.type_shape (fun d hd => (hm.dict_shape d hd).1)
+    pt p hp s hs.text_ne hs.types_eq hs.bounds_len _ (fun x hx => (within_iff _ x).mpr hx)
+
+theorem I32_of_natAbs_le (M : Nat) (hM : M < 2 ^ 31) (x : Int) (hx : x.natAbs ≤ M) : I32 x := by
+  unfold I32
+  have h31 : (2 : Nat) ^ 31 = 2147483648 := by decide
+  have h31' : (2 : Int) ^ 31 = 2147483648 := by decide
+  rw [h31] at hM
+  rw [h31']
+  omega
+
+/-- **4. no overflow**: if the mass of the model (without the n-grams of switched-off kinds) is below `2^31`, then every value
+of 1–3 is in the range of `i32`: the specification scores; all stored merged weights, all results of `+=` in both phases of the
+weight merger (checked against the `i32` range) and all partial sums of the cache table; and every slot of the score buffer after
+any prefix of either pass.  So on every `+` that `Predictor::new` and `Predictor::predict` perform for boundary scores, `i32`
+arithmetic and the unbounded integers of the model coincide.  (Tag scores are not covered.) -/
+theorem C01_no_overflow (cfg : Cfg) (m : WModel) (hm : WFModel0 m) (hmass : (dropW0 m).mass < 2 ^ 31) (pt : Bool)
+    (p : Predictor) (hp : Predictor.new cfg m pt = .ok p) :
+    (∀ text b, I32 (specScore (dropW0 m) text b)) ∧
+    BuildWithin inI32 cfg (dropW0 m) p ∧
+    ∀ s, SentOK s → RunWithin inI32 p s :=
+  have hP : ∀ x : Int, x.natAbs ≤ (dropW0 m).mass → inI32 x = true :=
+    fun x hx => (inI32_iff x).mpr (I32_of_natAbs_le _ hmass x hx)
+  ⟨fun text b => I32_of_natAbs_le _ hmass _ (C01_spec_bounded_window0 m text b),
+   C01B.build_within cfg m (dropW0 m) (dropW0_isDrop m) pt p hp inI32 hP,
+   fun s hs => C01B.run_within cfg m (dropW0 m) (dropW0_isDrop m) hm.char_shape hm.type_shape
+     (fun d hd => (hm.dict_shape d hd).1) pt p hp s hs.text_ne hs.types_eq hs.bounds_len inI32 hP⟩
+
+/-! ### 5. sharpness and non-vacuity
+
+`C01_sharpModel`: a well-formed model of mass exactly `2^31 − 1` whose score on `aa` is `2^31 − 1` (the bound of 1 is attained, and
+the hypothesis of `C01_no_overflow` holds); `C01_overModel`: one more unit of weight, mass `2^31`, score `2^31` — outside `i32`.
+The character n-gram `a` and the dictionary word `a` share a key, so the weight merger adds their vectors: on the second model
+that sum is `2^31` and the `i32`-checked merger is poisoned, on the first it is not. -/
+
+def C01_sharpModel : WModel :=
+  { charNgrams := [⟨['a'], [1073741824, 1]⟩], typeNgrams := [⟨[2], [3, 4]⟩],
+    dict := [⟨['a'], [1073741800, 10], []⟩], bias := 5, charW := 1, typeW := 1, tagModels := [] }
+
+def C01_overModel : WModel :=
+  { C01_sharpModel with dict := [⟨['a'], [1073741800, 11], []⟩] }
+
+example : WFModel C01_sharpModel :=
+  { charW_pos := by decide, charW_le := by decide, typeW_pos := by decide, typeW_le := by decide,
+    char_nodup := by decide, char_shape := by decide, type_nodup := by decide, type_shape := by decide,
+    dict_nodup := by decide, dict_shape := by decide }
+
+example : WFModel C01_overModel :=
+  { charW_pos := by decide, charW_le := by decide, typeW_pos := by decide, typeW_le := by decide,
+    char_nodup := by decide, char_shape := by decide, type_nodup := by decide, type_shape := by decide,
+    dict_nodup := by decide, dict_shape := by decide }
+
+/-- the bound is attained: mass `2^31 − 1`, score `2^31 − 1` -/
+example : C01_sharpModel.mass = 2 ^ 31 - 1 ∧ (dropW0 C01_sharpModel).mass = 2 ^ 31 - 1 := by decide
+example : specScore C01_sharpModel ['a', 'a'] 0 = 2 ^ 31 - 1 := by decide
+example : I32 (specScore C01_sharpModel ['a', 'a'] 0) := by decide
+
+/-- it cannot be improved: mass `2^31`, score `2^31`, not an `i32` -/
+example : C01_overModel.mass = 2 ^ 31 ∧ (dropW0 C01_overModel).mass = 2 ^ 31 := by decide
+example : specScore C01_overModel ['a', 'a'] 0 = 2 ^ 31 := by decide
+example : ¬ I32 (specScore C01_overModel ['a', 'a'] 0) := by decide
+
+/-- non-vacuity of `C01_merged_bounded` / `C01_running_bounded` / `C01_no_overflow`: the predictor is built from the sharp model
+in the three configurations, and also from the example models above (whose masses are far below `2^31`) -/
+example : (Predictor.new {} C01_sharpModel false).isOk = true := by decide
+example : (Predictor.new { fixed := false, cache := false, tagPred := false } C01_sharpModel false).isOk = true := by decide
+example : (Predictor.new {} C01_sharpModel true).isOk = true := by decide
+example : (dropW0 C01_exModel).mass = 32 ∧ (dropW0 C01_exModel0).mass = 22 := by decide
+
+/-- the bound of 2 is attained as well, and the checked `+=` does detect a result outside the bound: in these two models the
+character n-gram `a` and the dictionary word `a` make up the whole mass (`2^31 − 1` and `2^31`) in one coordinate; the merged
+coordinate equals the mass, and the merger run with the `i32` check is poisoned on the second model only -/
+def C01_sharpMerge : WModel :=
+  { charNgrams := [⟨['a'], [1073741824, 0]⟩], typeNgrams := [], dict := [⟨['a'], [1073741823, 0], []⟩], bias := 0,
+    charW := 1, typeW := 1, tagModels := [] }
+
+def C01_overMerge : WModel :=
+  { C01_sharpMerge with dict := [⟨['a'], [1073741824, 0], []⟩] }
+
+example : WFModel C01_overMerge :=
+  { charW_pos := by decide, charW_le := by decide, typeW_pos := by decide, typeW_le := by decide,
+    char_nodup := by decide, char_shape := by decide, type_nodup := by decide, type_shape := by decide,
+    dict_nodup := by decide, dict_shape := by decide }
+
+example : (dropW0 C01_sharpMerge).mass = 2 ^ 31 - 1 ∧ (dropW0 C01_overMerge).mass = 2 ^ 31 := by decide
+example : addAll (Merge.addC (C01B.okW inI32 some) PW.add) (Merge.liftE (charEntries (dropW0 C01_sharpMerge))) []
+    = [(['a'], some ⟨-1, [2 ^ 31 - 1, 0]⟩)] := by decide
+example : addAll (Merge.addC (C01B.okW inI32 some) PW.add) (Merge.liftE (charEntries (dropW0 C01_overMerge))) []
+    = [(['a'], none)] := by decide
+example : addAll PW.add (charEntries (dropW0 C01_overMerge)) [] = [(['a'], ⟨-1, [2 ^ 31, 0]⟩)] := by decide
 example : (C01_exPredict0 {} true 7 C01_exSentence).bind (·.boundaryScores) = .ok [0, 1] := by decide
 example : (C01_exPredict0 {} true 7 C01_exSentence).map (·.bounds) = .ok [B.N, B.W] := by decide
+
+/-! ## window size 0 in the remaining theorems: overwriting and locality
+
+`C01_predict_overwrites_fields`, `C01_predict_overwrites`, `C01_predict_twice` and `C01_score_local` for `WFModel0`.  The
+first three do not mention the specification at all, so their statements are unchanged; the fourth is the locality of the
+linear model of `dropW0 m`, which is what the predictor computes (`C01_scores_window0`). -/
+
+/-- `C01_predict_overwrites_fields` for windows 0..255 -/
+theorem C01_predict_overwrites_fields_window0 (cfg : Cfg) (m : WModel) (hm : WFModel0 m) (pt : Bool) (p q : Predictor)
+    (hp : Predictor.new cfg m pt = .ok p) (s s1 : Sentence) (hs : SentOK s) (pid qid : Nat)
+    (h1 : q.predict qid s = .ok s1) :
+    ∃ r r1, p.predict pid s = .ok r ∧ p.predict pid s1 = .ok r1 ∧
+      r1 = { r with cstates := r1.cstates, tstates := r1.tstates } ∧
+      (p.writesCharStates = true → r1.cstates = r.cstates) ∧
+      (p.writesCharStates = false → r.cstates = s.cstates ∧ r1.cstates = s1.cstates) ∧
+      (p.writesTypeStates = true → r1.tstates = r.tstates) ∧
+      (p.writesTypeStates = false → r.tstates = s.tstates ∧ r1.tstates = s1.tstates) :=
+  C01O.predict_overwrites_fields0 cfg m hm.char_shape hm.type_shape
+    (fun d hd => (hm.dict_shape d hd).1) pt p hp q s s1 hs.text_ne hs.types_eq hs.bounds_len pid qid h1
+
+/-- `C01_predict_overwrites` for windows 0..255 -/
+theorem C01_predict_overwrites_window0 (cfg : Cfg) (m : WModel) (hm : WFModel0 m) (pt : Bool) (p q : Predictor)
+    (hp : Predictor.new cfg m pt = .ok p)
+    (hwc : q.writesCharStates = true → p.writesCharStates = true)
+    (hwt : q.writesTypeStates = true → p.writesTypeStates = true)
+    (s s1 : Sentence) (hs : SentOK s) (pid qid : Nat) (h1 : q.predict qid s = .ok s1) :
+    p.predict pid s1 = p.predict pid s :=
+  C01O.predict_overwrites_eq0 cfg m hm.char_shape hm.type_shape
+    (fun d hd => (hm.dict_shape d hd).1) pt p hp q hwc hwt s s1 hs.text_ne hs.types_eq hs.bounds_len pid qid h1
+
+/-- `C01_predict_twice` for windows 0..255 -/
+theorem C01_predict_twice_window0 (cfg : Cfg) (m : WModel) (hm : WFModel0 m) (pt : Bool) (p : Predictor)
+    (hp : Predictor.new cfg m pt = .ok p) (s s1 : Sentence) (hs : SentOK s) (pid pid' : Nat)
+    (h1 : p.predict pid s = .ok s1) : p.predict pid' s1 = p.predict pid' s :=
+  C01_predict_overwrites_window0 cfg m hm pt p p hp id id s s1 hs pid' pid h1
+
+/-! ### non-vacuity of the three theorems on `C01_exModel0` (character window 0; `WFModel0 C01_exModel0` and
+`SentOK C01_exSentence` are shown above), and the counterexample to the unconditional equality, which persists -/
+
+def C01_exWrites0 (cfg : Cfg) (pt : Bool) : Option (Bool × Bool) :=
+  match Predictor.new cfg C01_exModel0 pt with
+  | .ok p => some (p.writesCharStates, p.writesTypeStates)
+  | _ => none
+
+/-- `hp` and `h1`: the predictors are built and the first prediction succeeds, for a tag-aware and for a plain `q` -/
+example : (Predictor.new {} C01_exModel0 true).isOk = true ∧ (Predictor.new {} C01_exModel0 false).isOk = true ∧
+    (Predictor.new { fixed := false, cache := false, tagPred := false } C01_exModel0 false).isOk = true := by decide
+example : (C01_exPredict0 {} true 7 C01_exSentence).isOk = true := by decide
+example : (C01_exPredict0 {} false 7 C01_exSentence).isOk = true := by decide
+
+/-- `hwc`, `hwt`: which vectors are written is as for `C01_exModel` (the character scorer still exists with window 0: it
+carries the dictionary word and the character tag n-gram) -/
+example : C01_exWrites0 {} true = some (true, true) := by decide
+example : C01_exWrites0 {} false = some (false, true) := by decide
+example : C01_exWrites0 { fixed := false, cache := false, tagPred := false } false = some (false, false) := by decide
+
+/-- the conclusions on the example: `q` plain and cached, `p` tag-aware; and `p = q` -/
+example : (C01_exPredict0 {} false 7 C01_exSentence).bind (C01_exPredict0 {} true 3)
+    = C01_exPredict0 {} true 3 C01_exSentence := by decide
+example : (C01_exPredict0 {} true 7 C01_exSentence).bind (C01_exPredict0 {} true 3)
+    = C01_exPredict0 {} true 3 C01_exSentence := by decide
+
+/-- the **counterexample** to the equality without `hwc` is still one with character window 0: the tag-aware `q` leaves its
+character states in the sentence, the plain `p` hands them through -/
+example : (C01_exPredict0 {} true 7 C01_exSentence).bind (C01_exPredict0 {} false 3)
+    ≠ C01_exPredict0 {} false 3 C01_exSentence := by decide
+example : ((C01_exPredict0 {} true 7 C01_exSentence).bind (C01_exPredict0 {} false 3)).map (·.cstates)
+    = .ok [none, some 0, some 1] := by decide
+example : (C01_exPredict0 {} false 3 C01_exSentence).map (·.cstates) = .ok [] := by decide
+
+/-- **locality, windows 0..255**: as `C01_score_local`, for the linear model of `dropW0 m` — the one the predictor computes
+(`C01_scores_window0`).  `R` bounds both windows and every dictionary word as before; a window of 0 satisfies its bound
+trivially, and the n-grams of that kind, having been dropped, cannot reach across any distance. -/
+theorem C01_score_local_window0 (m : WModel) (hm : WFModel0 m) (R : Nat)
+    (hc : m.charW ≤ R) (ht : m.typeW ≤ R) (hd : ∀ d ∈ m.dict, d.word.length ≤ R)
+    (pre pre' mid post post' : List Char) (k : Nat) (hk1 : R ≤ k + 1) (hk2 : k + 1 + R ≤ mid.length) :
+    specScore (dropW0 m) (pre ++ mid ++ post) (pre.length + k)
+      = specScore (dropW0 m) (pre' ++ mid ++ post') (pre'.length + k) :=
+  have hts := fun h1 d h => ⟨(hm.type_shape h1 d h).1, (hm.type_shape h1 d h).2.1, (hm.type_shape h1 d h).2.2.1⟩
+  have hds := fun d h => ⟨(hm.dict_shape d h).1, (hm.dict_shape d h).2.2⟩
+  (C01Loc.specScore_local0 m hm.char_shape hts hds R hc ht hd pre mid post k hk1 hk2).trans
+    (C01Loc.specScore_local0 m hm.char_shape hts hds R hc ht hd pre' mid post' k hk1 hk2).symm
+
+/-- non-vacuity of `C01_score_local_window0` on `C01_exModel0`: `R = 2` bounds both windows (0 and 1) and the dictionary word
+(2 characters); in `mid = "abab"` the boundary `k = 1` has `R` characters on either side (both side conditions hold with
+equality); the two scores are equal although the surroundings differ -/
+example : C01_exModel0.charW ≤ 2 ∧ C01_exModel0.typeW ≤ 2 ∧ (∀ d ∈ C01_exModel0.dict, d.word.length ≤ 2) ∧
+    2 ≤ 1 + 1 ∧ 1 + 1 + 2 ≤ ['a', 'b', 'a', 'b'].length := by decide
+example : specScore (dropW0 C01_exModel0) (['b', 'a'] ++ ['a', 'b', 'a', 'b'] ++ ['a']) (2 + 1) = 2 ∧
+    specScore (dropW0 C01_exModel0) ([] ++ ['a', 'b', 'a', 'b'] ++ ['1', 'b']) (0 + 1) = 2 := by decide
+/-- the radius is still needed for the kinds that are switched on (here the dictionary word and the type n-grams): one
+character fewer on the right (`k + 1 + R = mid.length + 1`) and the conclusion fails -/
+example : specScore (dropW0 C01_exModel0) ([] ++ ['a', 'b', 'a'] ++ ['b']) (0 + 1)
+    ≠ specScore (dropW0 C01_exModel0) ([] ++ ['a', 'b', 'a'] ++ ['1']) (0 + 1) := by decide
+/-- whereas for `m` itself instead of `dropW0 m` the statement would be false (same `R`, `mid = "bbbb"`, `k = 1`): the ignored
+character n-gram `a` (three weights with window 0) would reach the boundary two characters to the right of its end, from
+outside `mid`; in `dropW0 m` it is gone -/
+example : specScore C01_exModel0 (['a'] ++ ['b', 'b', 'b', 'b'] ++ []) (1 + 1) = 3 ∧
+    specScore C01_exModel0 (['b'] ++ ['b', 'b', 'b', 'b'] ++ []) (1 + 1) = -2 := by decide
+example : specScore (dropW0 C01_exModel0) (['a'] ++ ['b', 'b', 'b', 'b'] ++ []) (1 + 1) = -2 ∧
+    specScore (dropW0 C01_exModel0) (['b'] ++ ['b', 'b', 'b', 'b'] ++ []) (1 + 1) = -2 := by decide
 
 end V
